@@ -74,7 +74,7 @@ def plan(tier, seed):
                 nthreads=[4, 8, 12, 16][i % 4], ntempo=[1, 3, 6][i % 3],
                 p_yield=[0.0, 0.01, 0.05, 0.15][(i // 2) % 4],
                 burners=[0, 2, 8][i % 3], max_tasks=40000, unlocked_tempo=i % 2 == 0,
-                hard_timeout=300))
+                hard_timeout=600))
         for ck in ('SystemClock', 'AppClock', 'TempoClock'):
             for part in range(2):
                 shards.append(dict(name=f'park-{ck}-{part}', mode='rt', kind='park',
